@@ -137,12 +137,18 @@ theorem stops_head_perturbed (c : Ctx) (hc : CtxOk c) (b : Item) (hp : provedIte
     exact fromHead a t e' h1 h2
   | numeric n pad => simp [stopsNumber] at hs
   | fixed f =>
-    have hf : f ∈ [Fixed.shortMonthName, .longMonthName, .shortWeekdayName, .longWeekdayName, .lowerAmPm,
-        .upperAmPm, .timezoneOffset, .timezoneOffsetColon] := by
-      cases f <;> simp [stopsNumber] at hs ⊢
-    obtain ⟨a, t, e, ha⟩ := perturbed_fixed_head c hc f hf tb hfmt tb' hP
-    obtain ⟨h1, h2, _, _⟩ := alpha_sign_facts a ha
-    exact fromHead a t e h1 h2
+    by_cases hdf : f = .nanosecond3 ∨ f = .nanosecond6 ∨ f = .nanosecond9
+    · have e : tb' = tb := by
+        rw [perturbSeg_other _ (fun sp h => by cases h)] at hP
+        rcases hdf with rfl | rfl | rfl <;> simpa [caseFree] using hP
+      subst e
+      exact stops_head c hc _ hp hs tb' hfmt x
+    · have hf : f ∈ [Fixed.shortMonthName, .longMonthName, .shortWeekdayName, .longWeekdayName, .lowerAmPm,
+          .upperAmPm, .timezoneOffset, .timezoneOffsetColon] := by
+        cases f <;> simp [stopsNumber] at hs hdf ⊢
+      obtain ⟨a, t, e, ha⟩ := perturbed_fixed_head c hc f hf tb hfmt tb' hP
+      obtain ⟨h1, h2, _, _⟩ := alpha_sign_facts a ha
+      exact fromHead a t e h1 h2
   | error => cases hp
 
 /-- `after_space_head` for a perturbed rendering -/
@@ -163,14 +169,20 @@ theorem after_space_head_perturbed (c : Ctx) (hc : CtxOk c) (b : Item) (is' : Li
     | space s => exact absurd rfl hl
     | numeric n pad => exact absurd rfl hl
     | fixed f =>
-      left
-      have hf : f ∈ [Fixed.shortMonthName, .longMonthName, .shortWeekdayName, .longWeekdayName, .lowerAmPm,
-          .upperAmPm, .timezoneOffset, .timezoneOffsetColon] := by
-        cases f <;> simp [afterSpaceOk, leadInsensitive, visibleLiteral] at hs hl ⊢
-      obtain ⟨a, t, e, ha⟩ := perturbed_fixed_head c hc f hf tb hfmt tb' hP
-      obtain ⟨_, _, h3, h4⟩ := alpha_sign_facts a ha
-      subst e
-      exact wsLen_visible a _ h3 h4
+      by_cases hcf : caseFree (.fixed f) = true
+      · left
+        have hf : f ∈ [Fixed.shortMonthName, .longMonthName, .shortWeekdayName, .longWeekdayName, .lowerAmPm,
+            .upperAmPm, .timezoneOffset, .timezoneOffsetColon] := by
+          cases f <;> simp [caseFree] at hcf ⊢
+        obtain ⟨a, t, e, ha⟩ := perturbed_fixed_head c hc f hf tb hfmt tb' hP
+        obtain ⟨_, _, h3, h4⟩ := alpha_sign_facts a ha
+        subst e
+        exact wsLen_visible a _ h3 h4
+      · have e : tb' = tb := by
+          rw [perturbSeg_other _ (fun sp h => by cases h), if_neg hcf] at hP
+          exact hP
+        subst e
+        exact after_space_head c hc _ is' hp hs tb' hfmt x
     | error => cases hp
 
 /-- `restOk_of_sep` with the facts about the following text as a hypothesis (so that it applies to the
@@ -178,10 +190,11 @@ rendering of the next item as well as to a perturbation of it) -/
 theorem restOk_of_sep_gen (c : Ctx) (a b : Item) (rest : List Item) (hpa : provedItem a = true)
     (hnot : ∀ sp, a ≠ .space sp)
     (hsep : separated (a :: b :: rest) = true) (hy : YearOk c (a :: b :: rest)) (R : List Nat)
-    (hstop : stopsNumber b = true → StopsDigits R ∧ (startsWithDot b = false → ∀ t, R ≠ 46 :: t)) :
+    (hstop : stopsNumber b = true → StopsDigits R ∧ (startsWithDot b = false → ∀ t, R ≠ 46 :: t))
+    (hB : isNumber a = true → isOptFrac b = true → (startsNonDigit R = true ∨ R = [])) :
     RestOk c a R := by
   simp only [separated, Bool.and_eq_true, Bool.or_eq_true, Bool.not_eq_true'] at hsep
-  obtain ⟨⟨hsd, hdot⟩, _⟩ := hsep
+  obtain ⟨⟨hsd0, hdot⟩, _⟩ := hsep
   have stops : stopsNumber b = true → (startsNonDigit R = true ∨ R = []) :=
     fun h => spec_of_stops _ (hstop h).1
   cases a with
@@ -189,6 +202,10 @@ theorem restOk_of_sep_gen (c : Ctx) (a b : Item) (rest : List Item) (hpa : prove
   | space s => exact absurd rfl (hnot s)
   | error => cases hpa
   | fixed f =>
+    have hsd : selfDelimiting (.fixed f) = true ∨ stopsNumber b = true := by
+      rcases hsd0 with h | h
+      · exact h
+      · exact absurd h.1 (by simp [isNumber])
     cases f <;> first
       | trivial
       | (simp only [selfDelimiting, Bool.false_eq_true, false_or] at hsd
@@ -211,26 +228,30 @@ theorem restOk_of_sep_gen (c : Ctx) (a b : Item) (rest : List Item) (hpa : prove
     by_cases hsb : stopsNumber b = true
     · have := stops hsb
       cases n <;> simp only [RestOk] <;> first | trivial | exact this | exact Or.inl this
-    · have hsb' : stopsNumber b = false := by simpa using hsb
-      have hself : selfDelimiting (.numeric n pad) = true := by
-        rcases hsd with h | h
-        · exact h
-        · exact absurd h hsb
-      cases n with
-      | year =>
-        obtain ⟨hp0, ht⟩ := hyear .year (Or.inl rfl) rfl hself hsb'
-        exact Or.inr ⟨hp0, hy.1 ht⟩
-      | isoYear =>
-        obtain ⟨hp0, ht⟩ := hyear .isoYear (Or.inr rfl) rfl hself hsb'
-        exact Or.inr ⟨hp0, hy.2 ht⟩
-      | timestamp => simp [selfDelimiting] at hself
-      | quarter => trivial
-      | numDaysFromSun => trivial
-      | weekdayFromMon => trivial
-      | _ =>
-        simp only [RestOk]
-        right
-        cases pad <;> simp [selfDelimiting] at hself ⊢
+    · by_cases hob : isOptFrac b = true
+      · have := hB rfl hob
+        cases n <;> simp only [RestOk] <;> first | trivial | exact this | exact Or.inl this
+      · have hsb' : stopsNumber b = false := by simpa using hsb
+        have hself : selfDelimiting (.numeric n pad) = true := by
+          rcases hsd0 with (h | h) | h
+          · exact h
+          · exact absurd h hsb
+          · exact absurd h.2 hob
+        cases n with
+        | year =>
+          obtain ⟨hp0, ht⟩ := hyear .year (Or.inl rfl) rfl hself hsb'
+          exact Or.inr ⟨hp0, hy.1 ht⟩
+        | isoYear =>
+          obtain ⟨hp0, ht⟩ := hyear .isoYear (Or.inr rfl) rfl hself hsb'
+          exact Or.inr ⟨hp0, hy.2 ht⟩
+        | timestamp => simp [selfDelimiting] at hself
+        | quarter => trivial
+        | numDaysFromSun => trivial
+        | weekdayFromMon => trivial
+        | _ =>
+          simp only [RestOk]
+          right
+          cases pad <;> simp [selfDelimiting] at hself ⊢
 
 /-! ### names and am/pm in any letter case, for a value's context -/
 
@@ -463,9 +484,56 @@ theorem chain_of_separated_perturbed (c : Ctx) (hc : CtxOk c) (rest : List Nat) 
               (fun x hx => hlast x (by rw [List.getLast?_cons_cons]; exact hx))
           have eR : flatText (retok (tkb :: tks') (sb' :: ss'')) ++ rest =
               sb' ++ (flatText (retok tks' ss'') ++ rest) := by simp [flatText, retok]
+          have hsepT : separated (b :: is') = true := by
+            simp only [separated, Bool.and_eq_true] at hsep; exact hsep.2
+          have hB : isNumber a = true → isOptFrac b = true →
+              (startsNonDigit (sb' ++ (flatText (retok tks' ss'') ++ rest)) = true ∨
+                sb' ++ (flatText (retok tks' ss'') ++ rest) = []) := by
+            intro _ hob
+            have hnsb : ∀ sp, b ≠ .space sp := fun sp e => by subst e; simp [isOptFrac] at hob
+            have hnnb : ¬ isNumber b = true := by
+              cases b <;> simp [isOptFrac, isNumber] at hob ⊢
+            have hncf : ¬ caseFree b = true := by
+              cases b with
+              | fixed f => cases f <;> simp [isOptFrac, caseFree] at hob ⊢
+              | _ => simp [isOptFrac] at hob
+            have esb : sb' = tkb.text := by
+              rw [perturbSeg_other b hnsb, if_neg hncf] at hPb; exact hPb
+            rw [esb]
+            refine optfrac_stops c b hob tkb.text hfb _ ?_
+            cases is' with
+            | nil =>
+              cases tks' with
+              | cons _ _ => exact absurd htl.2 (by simp [TokensOf])
+              | nil =>
+                cases ss'' with
+                | cons _ _ =>
+                  simp only [List.map_cons, PSegs] at hPtl
+                  exact absurd hPtl.2 (by simp [PSegs])
+                | nil =>
+                  have := hlast b (by simp)
+                  simpa [flatText, retok] using this
+            | cons c' is'' =>
+              cases tks' with
+              | nil => exact absurd htl.2 (by simp [TokensOf])
+              | cons tkc tks'' =>
+                cases ss'' with
+                | nil =>
+                  simp only [List.map_cons, PSegs] at hPtl
+                  exact absurd hPtl.2 (by simp [PSegs])
+                | cons sc' ss3 =>
+                  have hPc : PSeg c' tkc.text sc' := by
+                    simp only [List.map_cons, PSegs] at hPtl; exact hPtl.2.1
+                  have hpc := hp c' (List.mem_cons_of_mem _ (List.mem_cons_of_mem _ List.mem_cons_self))
+                  have e2 : flatText (retok (tkc :: tks'') (sc' :: ss3)) ++ rest =
+                      sc' ++ (flatText (retok tks'' ss3) ++ rest) := by simp [flatText, retok]
+                  rw [e2]
+                  exact restOk_of_sep_gen c b c' is'' hpb hnsb hsepT (yearOk_tail c a b _ hy) _
+                    (fun hsc => stops_head_perturbed c hc c' hpc hsc tkc.text htl.2.1.1 sc' hPc _)
+                    (fun h => absurd h hnnb)
           have sepRest : (∀ sp, a ≠ .space sp) → RestOk c a (sb' ++ (flatText (retok tks' ss'') ++ rest)) :=
             fun hns => restOk_of_sep_gen c a b is' hpa hns hsep hy _
-              (fun hsb => stops_head_perturbed c hc b hpb hsb tkb.text hfb sb' hPb _)
+              (fun hsb => stops_head_perturbed c hc b hpb hsb tkb.text hfb sb' hPb _) hB
           show Chain2 (a :: b :: is') (⟨s', tk.set⟩ :: retok (tkb :: tks') (sb' :: ss'')) rest
           cases a with
           | space sp =>
